@@ -213,6 +213,38 @@ theorem allKnown_derUpd {nm : Compound} (h : AllKnown nm) (unit : UnitKey) (m : 
   unfold derUpd
   split <;> exact allKnown_insert h _ _ hk
 
+theorem allKnown_bump {nm : Compound} (h : AllKnown nm) (k : UnitKey) (δ : Int)
+    (hk : known k = true) : AllKnown (bump nm k δ) := by
+  unfold bump
+  split
+  · exact allKnown_insert h _ _ hk
+  · dsimp only
+    split
+    · exact allKnown_erase h _
+    · exact allKnown_insert h _ _ hk
+
+theorem allKnown_names0 (l : Powers) (hb : ∀ e ∈ l, ∃ b, e.1 = .base b) :
+    ∀ acc : Compound, AllKnown acc →
+      AllKnown (l.foldl (fun nm (e : UnitKey × Int) => AMap.insert nm e.1 { power := e.2, pfx := 0 }) acc) := by
+  induction l with
+  | nil => intro acc h; exact h
+  | cons a rest ih =>
+    intro acc h
+    simp only [List.foldl_cons]
+    obtain ⟨b, hbk⟩ := hb a (by simp)
+    exact ih (fun e he => hb e (List.mem_cons_of_mem _ he)) _ (allKnown_insert h _ _ (by rw [hbk]; rfl))
+
+theorem allKnown_bump_fold (l : Powers) (f : Int → Int) (hb : ∀ e ∈ l, ∃ b, e.1 = .base b) :
+    ∀ acc : Compound, AllKnown acc →
+      AllKnown (l.foldl (fun nm (e : UnitKey × Int) => bump nm e.1 (f e.2)) acc) := by
+  induction l with
+  | nil => intro acc h; exact h
+  | cons a rest ih =>
+    intro acc h
+    simp only [List.foldl_cons]
+    obtain ⟨b, hbk⟩ := hb a (by simp)
+    exact ih (fun e he => hb e (List.mem_cons_of_mem _ he)) _ (allKnown_bump h _ _ (by rw [hbk]; rfl))
+
 theorem allKnown_reconstructStep (acc acc' : Rat × Compound) (d : UnitKey × Int × Int)
     (hk : known d.1 = true) (h : AllKnown acc.2)
     (hstep : Compound.reconstructStep acc d = .ok acc') : AllKnown acc'.2 := by
@@ -281,13 +313,9 @@ theorem allKnown_mul (debug : Bool) (a b : Compound) (n : Int) (l r : Rat)
           simp only; rw [h]; exact hb e he
       have p1 : AllKnown (names1 (Compound.baseUnits (b0 :: bs)).2 n
           (names0 (Compound.baseUnits (a0 :: as)).2)) := by
-        obtain ⟨ca, _⟩ := baseUnits_spec (a0 :: as)
-        obtain ⟨cb, _⟩ := baseUnits_spec (b0 :: bs)
         rw [names1_eq_bump]
-        by_cases hn : n = 0
-        · sorry
-        · exact allKnown_of_base (baseNZ_bump_fold _ n hn (baseUnits_keys_base _) cb.nz _
-            (baseNZ_names0 _ (baseUnits_keys_base _) ca.nz [] baseNZ_nil)).base
+        exact allKnown_bump_fold _ (fun x => x * n) (baseUnits_keys_base _) _
+          (allKnown_names0 _ (baseUnits_keys_base _) [] allKnown_nil)
       split at h
       · cases h
       · split at h
